@@ -115,7 +115,19 @@ func runC12(t *fw.T, prog *gen.Node, lay NamedLayout) {
 			return map[string]any{"original": rd.Src, "corrupted": c.text, "corruption": c.kind + ": " + c.detail, "acorn": res.Err, "v8": res.V8}
 		}
 		var po ParseOut
-		if !t.Guard("strict parse of corrupted text", wit, func() { po = parse(c.text, Mode{}) }) {
+		if !t.Guard("strict parse of corrupted text", wit, func() {
+			if i%4 == 3 {
+				// strict mode of a builder that has served tolerant parsers before (options are copied into each parser)
+				b := newBuilder(Mode{Tolerant: true, Smart: true})
+				b.Build("a b {").ParseProgram()
+				b.WithTolerantMode(false).WithSmartSemicolon(false)
+				p := b.Build(c.text)
+				prog, err := p.ParseProgram()
+				po = ParseOut{Prog: prog, Err: err, Errors: p.Errors(), P: p}
+				return
+			}
+			po = parse(c.text, Mode{})
+		}) {
 			continue
 		}
 		if po.Err == nil && len(po.Errors) == 0 {
